@@ -80,6 +80,13 @@ func WithBudget(budget int64, f func()) (exceeded bool, used int64) {
 // MapOrders runs body under every map-iteration order with at most bound
 // non-default picks. body returns the observation of that execution.
 func MapOrders(bound, maxExec int, body func() string) *Result {
+	return MapOrdersAt(bound, maxExec, func(site string) bool { return site == "range" }, body)
+}
+
+// MapOrdersAt is MapOrders restricted to the choice sites accepted by sites
+// ("range": range statements over maps; "keys": maps.Keys/Values/All calls). A
+// site that is not controlled yields keys in ascending order.
+func MapOrdersAt(bound, maxExec int, sites func(string) bool, body func() string) *Result {
 	res := &Result{Outcomes: map[string]int{}, FirstByObs: map[string][]int{}, BoundDone: bound}
 	var rec func(prefix []int)
 	rec = func(prefix []int) {
@@ -88,7 +95,12 @@ func MapOrders(bound, maxExec int, body func() string) *Result {
 			return
 		}
 		c := &chooser{prefix: prefix}
-		bkl.BklvChoose = func(site string, n int) int { return c.choose(n, false) }
+		bkl.BklvChoose = func(site string, n int) int {
+			if !sites(site) {
+				return 0
+			}
+			return c.choose(n, false)
+		}
 		obs := func() (o string) {
 			defer func() {
 				bkl.BklvChoose = nil
